@@ -4,7 +4,10 @@
    what the reference decoder [ref_dec] (documented constructor/parser per scalar,
    canonical container with every element converted, surplus tuple items and unknown
    keys ignored, str iterating its characters, dict its keys) returns -- same result,
-   and an error exactly when the reference is undefined. *)
+   and an error exactly when the reference is undefined.
+   NamedTuple (as_list form: items read by position, trailing defaults when the sequence ends
+   early, an error raised inside an item always propagates) and TypedDict (required keys, then
+   the optional keys present; unknown keys ignored) are part of the grammar. *)
 From Coq Require Import List String ZArith Bool.
 From Verif Require Import Core TyModel TyProofs.
 Import ListNotations.
@@ -22,13 +25,94 @@ Print Assumptions C03_field_unpacker.
 
 (* second half of C03: whatever the generated unpacker returns conforms to the annotation
    (every field and element is built from the very class named there; Any unconstrained),
-   provided the class table's declared defaults conform to their fields *)
+   provided the class table is well formed ([cls_wf]): field names pairwise distinct and the
+   declared defaults conform to their fields (a dataclass field whose default is None is
+   nullable; a NamedTuple default must itself be an instance of the annotation).
+   [C03_well_typed_ord]: TypedDict results moreover have their keys in canonical order. *)
 From Verif Require Import TyConform.
 Theorem C03_well_typed : forall (E: senv) (P: prims),
-  forallb (fun c => forallb (default_ok E) c.(sc_fields)) E = true ->
+  forallb (cls_wf false E) E = true ->
   forall (d: pv) (t: sty) (r: pv), uk E P d (cu true t) = Ok r -> conf E r t = true.
 Proof.
   intros E P HD d t r H. rewrite (decode_is_ref E P d t) in H.
-  exact (ref_dec_conforms E P HD d t r H).
+  exact (ref_dec_conforms false E P HD d t r H).
 Qed.
 Print Assumptions C03_well_typed.
+
+Theorem C03_well_typed_ord : forall (E: senv) (P: prims),
+  forallb (cls_wf true E) E = true ->
+  forall (d: pv) (t: sty) (r: pv), uk E P d (cu true t) = Ok r -> conf_ord E r t = true.
+Proof.
+  intros E P HD d t r H. rewrite (decode_is_ref E P d t) in H.
+  exact (ref_dec_conforms true E P HD d t r H).
+Qed.
+Print Assumptions C03_well_typed_ord.
+
+(* a str input descends through NamedTuple classes with fuel [List.length E]: the equality above holds
+   for every amount of fuel; the fuel cannot run out unless a NamedTuple class reaches itself through
+   NamedTuple / container positions *)
+Theorem C03_str_input_any_fuel : forall (E: senv) (P: prims) (n: nat) (t: sty) (s: String.string),
+  uk_str E P n (cu true t) s = ref_dec_str E P n t s.
+Proof. intros E P n t s. exact (uk_str_ref E P n t true s). Qed.
+Print Assumptions C03_str_input_any_fuel.
+
+(* ... and the fuel [List.length E] is enough when the NamedTuple classes are ranked: [rk] bounds, for every
+   NamedTuple class, the number of NamedTuple classes a str can still descend through from its fields
+   ([need]: through list / set / tuple / Optional / NamedTuple positions; dataclasses, dicts and TypedDicts
+   stop the descent).  Then no RecursionError comes out. *)
+Theorem C03_str_fuel_sufficient : forall (E: senv) (P: prims) (rk: String.string -> nat),
+  (forall c k, sfind E KNamed c = Some k -> forall f, In f k.(sc_fields) -> (need rk f.(sf_ty) <= rk c)%nat) ->
+  forall (t: sty) (s: String.string), (need rk t <= List.length E)%nat ->
+    uk_str E P (List.length E) (cu true t) s <> Exn XRecursion.
+Proof. intros E P rk HR t s Hn. exact (uk_str_no_recursion E P rk HR t true s Hn). Qed.
+Print Assumptions C03_str_fuel_sufficient.
+
+(* non-vacuity: NT(a: int, b: Tuple[int, int] = (0, 0), c: int = 7) and
+   TD(o: NotRequired[int], r: List[int]) *)
+Definition ntE : senv :=
+  [ {| sc_kind := KNamed; sc_name := "NT"; sc_fields :=
+         [ {| sf_name := "a"; sf_ty := SIntT; sf_default := None; sf_opt := false |};
+           {| sf_name := "b"; sf_ty := STupleFix [SIntT; SIntT]; sf_default := Some (VTuple [VInt 0; VInt 0]); sf_opt := false |};
+           {| sf_name := "c"; sf_ty := SIntT; sf_default := Some (VInt 7); sf_opt := false |} ] |};
+    {| sc_kind := KTyped; sc_name := "TD"; sc_fields :=
+         [ {| sf_name := "o"; sf_ty := SIntT; sf_default := None; sf_opt := true |};
+           {| sf_name := "r"; sf_ty := SList SIntT; sf_default := None; sf_opt := false |} ] |} ].
+Definition ntP : prims := {|
+  p_render := fun k w => VStr w; p_parse := fun _ _ => None; p_enum_value := fun _ _ => None; p_enum_of := fun _ _ => None;
+  p_b64enc := fun b => b; p_b64dec := fun _ => None;
+  p_int := fun v => match v with VStr "1" => Some 1%Z | VStr "2" => Some 2%Z | _ => None end;
+  p_float := fun _ => None; p_str := fun _ => None |}.
+Definition dec (t: sty) (d: pv) := uk ntE ntP d (cu true t).
+
+(* a short list takes the trailing defaults; surplus items are ignored *)
+Example C03_named_defaults :
+  forallb (cls_wf false ntE) ntE = true /\
+  dec (SNamed "NT") (VList [VInt 1]) = Ok (VNT "NT" [VInt 1; VTuple [VInt 0; VInt 0]; VInt 7]) /\
+  dec (SNamed "NT") (VList [VInt 1; VList [VInt 2; VInt 3]]) = Ok (VNT "NT" [VInt 1; VTuple [VInt 2; VInt 3]; VInt 7]) /\
+  dec (SNamed "NT") (VList [VInt 1; VList [VInt 2; VInt 3]; VInt 4; VInt 5]) = Ok (VNT "NT" [VInt 1; VTuple [VInt 2; VInt 3]; VInt 4]) /\
+  dec (SNamed "NT") (VStr "1") = Ok (VNT "NT" [VInt 1; VTuple [VInt 0; VInt 0]; VInt 7]) /\
+  dec (SNamed "NT") (VList []) = Exn XTypeError.                     (* a has no default *)
+Proof. repeat split; vm_compute; reflexivity. Qed.
+
+(* ... but an item that is itself too short is an error, not "input exhausted" (fix 8ccb0df):
+   [1, [5], 9] must not become NT(1, (0, 0), 7) *)
+Example C03_named_nested_error :
+  dec (SNamed "NT") (VList [VInt 1; VList [VInt 5]; VInt 9]) = Exn XIndexError /\
+  dec (SNamed "NT") (VStr "123") = Exn XIndexError.
+Proof. split; vm_compute; reflexivity. Qed.
+
+(* the example table is ranked by the constant 0 (NT's fields reach no NamedTuple) *)
+Example C03_example_ranked :
+  forall c k, sfind ntE KNamed c = Some k -> forall f, In f k.(sc_fields) -> (need (fun _ => O) f.(sf_ty) <= O)%nat.
+Proof.
+  intros c k H f Hf. cbn [ntE sfind sc_kind ckind_eqb andb sc_name] in H.
+  destruct (String.eqb "NT" c); [|discriminate H]. inversion H; subst k. cbn [sc_fields] in Hf.
+  destruct Hf as [Hf|[Hf|[Hf|[]]]]; subst f; cbn; repeat constructor.
+Qed.
+
+Example C03_typed_optional_key :
+  dec (STyped "TD") (VDict [(VStr "zz", VNone); (VStr "r", VList [VStr "2"])]) = Ok (VDict [(VStr "r", VList [VInt 2])]) /\
+  dec (STyped "TD") (VDict [(VStr "o", VStr "1"); (VStr "r", VList [])]) = Ok (VDict [(VStr "r", VList []); (VStr "o", VInt 1)]) /\
+  dec (STyped "TD") (VDict [(VStr "o", VInt 1)]) = Exn XKeyError /\
+  dec (STyped "TD") (VList []) = Exn XTypeError.
+Proof. repeat split; vm_compute; reflexivity. Qed.
